@@ -2,6 +2,7 @@ package checks
 
 import (
 	"fmt"
+	"runtime"
 	"sort"
 	"strings"
 
@@ -15,6 +16,7 @@ import (
 
 // PResult is the outcome of parsing one text under the scheduler.
 type PResult struct {
+	Alloc    uint64 // bytes allocated while parsing (runtime.MemStats.TotalAlloc delta)
 	Err      string
 	ErrPos   bool // error is a *parser.ParseError (carries a position)
 	Accepted bool
@@ -27,13 +29,72 @@ type PResult struct {
 
 const parseFuelA, parseFuelB = 4000, 60000
 
+// growth families: texts of n and 2n lines; the bytes allocated and the fuel used may at most
+// triple (plus a constant) when the length doubles - linear behaviour doubles, quadratic quadruples
+type growthFamily struct {
+	name string
+	f    func(n int) string
+}
+
+var growthFamilies = []growthFamily{
+	{"declarations", func(n int) string { return strings.Repeat("type A = 1\n", n) }},
+	{"print-sequence", func(n int) string { return "prc[a] : 1 =\n" + strings.Repeat("print l;\n", n) + "close self\n" }},
+	{"comment-lines", func(n int) string { return strings.Repeat("// comment line\n", n) + "type A = 1\n" }},
+	{"long-comment", func(n int) string { return "type A = 1 /*\n" + strings.Repeat("* x /\n", n) + "*/\n" }},
+	{"blank-lines", func(n int) string { return strings.Repeat("\n", n) + "type A = 1" + strings.Repeat(" ", n) }},
+	{"exec-list", func(n int) string { return strings.Repeat("let f() : 1 = close self\n", n) + strings.Repeat("exec f()\n", n) }},
+	{"process-list", func(n int) string { return strings.Repeat("prc[a] : 1 = close self\n", n) }},
+	{"case-branches", func(n int) string { return "prc[a] : 1 = case x (" + strings.Repeat("l<y> => close self |\n", n) + "r<y> => close self)" }},
+	{"choice-labels", func(n int) string { return "type A = +{" + strings.Repeat("l : 1,\n", n) + "r : 1}" }},
+	{"parameter-list", func(n int) string { return "let f(" + strings.Repeat("x : 1,\n", n) + "y : 1) : 1 = close self" }},
+	{"argument-list", func(n int) string { return "prc[a] : 1 = f(" + strings.Repeat("x,\n", n) + "y)" }},
+	{"provider-names", func(n int) string { return "prc[" + strings.Repeat("x,\n", n) + "y] : 1 = close self" }},
+}
+
+func growthCase(k int, c *harness.Ctx, r *harness.Rec) {
+	n1 := 3000
+	if c.Thorough() {
+		n1 = 8000
+	}
+	fam := growthFamilies[k]
+	f := fam.f
+	a := ParseText(f(n1))
+	b := ParseText(f(2 * n1))
+	r.Add("evaluations", 2)
+	r.Add("distinct_nontrivial", 2)
+	desc := fmt.Sprintf("family %s: %d lines -> %d bytes allocated, fuel %d; %d lines -> %d bytes, fuel %d", fam.name, n1, a.Alloc, a.Fuel, 2*n1, b.Alloc, b.Fuel)
+	desc = strings.Replace(desc, "%!s(int="+fmt.Sprint(k)+")", fam.name, 1)
+	r.Sample(desc)
+	rp := map[string]interface{}{"kind": "parse-growth", "family": fam.name, "lines": n1, "first_line": strings.SplitN(f(2), "\n", 2)[0]}
+	if b.Alloc > 3*a.Alloc+(8<<20) {
+		r.Violation(harness.Violation{Key: "superlinear-memory:" + fam.name, Desc: "parser memory grows more than linearly with the length of the text; " + desc, Replay: rp})
+	}
+	if b.Fuel > 3*a.Fuel+100000 {
+		r.Violation(harness.Violation{Key: "superlinear-steps:" + fam.name, Desc: "parser steps grow more than linearly with the length of the text; " + desc, Replay: rp})
+	}
+	for _, x := range []*PResult{a, b} {
+		if len(x.Panics) > 0 || x.Blocked || x.FuelOut {
+			r.Violation(harness.Violation{Key: "parser fails on a large input", Desc: fmt.Sprintf("%s: panics=%v blocked=%v fuel exhausted=%v", desc, x.Panics, x.Blocked, x.FuelOut), Replay: rp})
+		}
+	}
+}
+
 func ParseText(text string) *PResult {
 	out := &PResult{}
 	limit := int64(parseFuelA*len(text) + parseFuelB)
 	vfuel.Reset(limit * 4)
 	answered := false
+	var m0, m1 runtime.MemStats
+	measure := len(text) > 5000
 	res := vsched.Run(nil, vsched.Options{MaxSteps: 5000}, func() {
+		if measure {
+			runtime.ReadMemStats(&m0)
+		}
 		procs, assumed, env, err := parser.ParseString(text)
+		if measure {
+			runtime.ReadMemStats(&m1)
+			out.Alloc = m1.TotalAlloc - m0.TotalAlloc
+		}
 		answered = true
 		if err != nil {
 			out.Err = err.Error()
@@ -88,7 +149,7 @@ func declKey(d []ref.Decl) string {
 var chrFull = []string{"a", "1", "2", "_", "'", " ", "\n", ">", "(", ")", "[", "]", "{", "}", ".", ";", ":", "|", ",", "+", "*", "&", "%", "=", "<", "-", "/", "\\", "@", "é", "\x00", "\x01", "\x7f"}
 var chrSub = []string{"a", "1", "o", " ", "\n", "=", "<", ">", "-", "*", "/", "\\", "@", "\x00", "'", "_", "\x0c"}
 
-var tokAlphabet = []string{"a", "b", "<-", "=>", "/\\", "\\/", "=", ".", ";", ":", ",", "(", ")", "[", "]", "<", ">", "|",
+var tokAlphabet = []string{"a", "1b", "<-", "=>", "/\\", "\\/", "=", ".", ";", ":", ",", "(", ")", "[", "]", "<", ">", "|",
 	"send", "recv", "receive", "case", "close", "wait", "cast", "shift", "drop", "split", "new", "type", "let", "prc", "fwd", "forward", "self", "print",
 	"+", "-", "*", "&", "1", "{", "}", "-*", "-o", "%", "assuming", "exec", "accept", "acquire", "detach", "release", "push", "snew", "in", "end", "sprc"}
 
@@ -188,6 +249,15 @@ func enumSpaces(c *harness.Ctx, forGrammar bool) []textSpace {
 		func(n int) string { return "prc[a] : 1 = g(" + rep("x, ", n) + "self)" },
 	}
 	sp = append(sp, textSpace{"nesting", len(shapes) * (maxDepth + 1), func(i int) string { return shapes[i%len(shapes)](i / len(shapes)) }})
+	// hand-picked texts around exec, labels that start with a digit, and keyword-like labels
+	picked := []string{
+		"let f(x : 1) : 1 = wait x; close self\nexec f()", "let f(x : 1, y : 1) : 1 = wait x; wait y; close self\nexec f()",
+		"exec f()\nlet f() : 1 = close self", "let f[w : 1] = close w\nexec f()", "exec g()", "let f() : 1 = close self\nexec f()\nexec f()\nexec f()",
+		"type 1st = 1\ntype 1nd = 1st\ntype 11 = +{1a : 1, 1b : 1st}", "prc[1x] : 1 = 1y <- new 1f(); wait 1y; close self\nlet 1f() : 1 = close self",
+		"type typ = 1\ntype lets = typ\nprc[prcs] : lets = close self", "prc[a] : 1 = print 1; close self", "prc[a] : 1 = print print; close self",
+		"type A = +{1 : 1}", "type 1 = 1", "prc[a] = @", "prc[a] : 1 = close self @", "type A = 1 $ type B = 1",
+	}
+	sp = append(sp, textSpace{"picked", len(picked), func(i int) string { return picked[i] }})
 	// comment space: two declarations with comment skeletons between and after them
 	cAlpha := []string{"/*", "*/", "*", "/", "x", "//", "\n"}
 	var between, after []string
@@ -296,12 +366,16 @@ func init() {
 	textRule := "all character strings of length <= 3 (quick) / <= 4 (thorough) over 33 scanner character-class representatives (letters, digits, _, ', space, newline, every punctuation the scanner knows, /, \\, an illegal ASCII character, a non-ASCII rune, the byte 0, a control character, DEL), all strings of length 4 / 5 over a 16-character sub-alphabet that exercises the multi-character tokens and comments, all token strings of length <= 3 / <= 4 over 57 lexemes (one per terminal, synonyms included), for every corpus/example file every prefix, every single-character deletion and every insertion of 19 legal/illegal fragments at every token boundary, all 4096 alias/recursion/mode graphs of three type definitions and all pairs of type definitions with depth-1 bodies as texts, 14 nesting/length families (brackets, right-nested types and terms, parameter/branch/argument lists, many declarations) at every depth 0..140 (quick) / 0..300 (thorough), and two-declaration programs with every comment skeleton of <= 3 pieces (space-separated and adjacent) over {/*, */, *, /, x, //, newline} between the declarations and of <= 2 pieces after them"
 	harness.Register(&harness.Check{
 		ID: "C11", Level: "exploration",
-		Rule:        textRule + "; each text is parsed by the real (fuel-instrumented) parser under the scheduler: it must return (not panic, not block on the error channel), within a fuel bound linear in len(text), with a program or a non-empty error; distinct_nontrivial = distinct texts with at least 2 characters",
+		Rule:        textRule + "; each text is parsed by the real (fuel-instrumented) parser under the scheduler: it must return (not panic, not block on the error channel), within a fuel bound linear in len(text) (plus 12 growth families - many declarations, long terms, comment lines, long comments, blank lines, exec lists, process lists, case branches, choice labels, parameter/argument/provider-name lists - parsed at n and 2n lines, n = 3000 quick / 8000 thorough: bytes allocated and fuel may at most triple when the length doubles), with a program or a non-empty error; distinct_nontrivial = distinct texts with at least 2 characters",
 		Assumptions: []string{fmt.Sprintf("promptness is measured in deterministic fuel ticks (function entries + loop iterations): bound %d*len+%d, calibrated on the corpus with a >10x margin", parseFuelA, parseFuelB)},
-		Cases:       func(c *harness.Ctx) int { return (spaceTotal(getSpaces(c)) + textChunk - 1) / textChunk },
+		Cases:       func(c *harness.Ctx) int { return (spaceTotal(getSpaces(c))+textChunk-1)/textChunk + len(growthFamilies) },
 		Run: func(c *harness.Ctx, idx int, r *harness.Rec) {
 			sp := getSpaces(c)
 			total := spaceTotal(sp)
+			if nc := (total + textChunk - 1) / textChunk; idx >= nc {
+				growthCase(idx-nc, c, r)
+				return
+			}
 			var maxRatio float64
 			for i := idx * textChunk; i < (idx+1)*textChunk && i < total; i++ {
 				text, where := spaceAt(sp, i)
@@ -310,6 +384,7 @@ func init() {
 				if len(text) >= 2 {
 					r.Add("distinct_nontrivial", 1)
 				}
+
 				rp := map[string]interface{}{"kind": "parse", "text": text, "space": where}
 				limit := int64(parseFuelA*len(text) + parseFuelB)
 				switch {
